@@ -174,6 +174,16 @@ def op_strategies(nparts, ngroups, profile):
                                   ['clone', t[2], t[3], [0, 0, 0]],
                                   ['clone', t[2], t[3], [0, 0, 0]],
                                   ['cycle']]]),
+        # macro: the cell is filled up, then a member of an identity group in
+        # an allocation with a utilisation cap is outranked inside its
+        # allocation by same-shape arrivals (over the cap and under pressure
+        # in one cycle)
+        'capsqueeze': st.tuples(st.integers(0, 2), st.integers(1, 2), idx,
+                                st.sampled_from([50, 100]), st.booleans())
+        .map(lambda t: ['macro', [['fill', t[0], t[1]], ['cycle'],
+                                  ['capclone', t[2], t[3]]] +
+                        ([['capclone', t[2], t[3]]] if t[4] else []) +
+                        [['cycle']]]),
         # macro: a loaded server is frozen and same-shape instances of high
         # priority arrive (pressure on whatever still sits there)
         'freezepress': st.tuples(idx, idx, idx, st.sampled_from([50, 100]))
@@ -269,7 +279,7 @@ def flatten(ops):
 DEFAULT_WEIGHTS = {
     'app': 10, 'clone': 2, 'rm': 2, 'prio': 1, 'move': 1, 'srv': 1, 'rmsrv': 1,
     'readd': 1, 'down': 2, 'up': 2, 'downseq': 0, 'freezeflip': 0,
-    'orphanbl': 0, 'orphanrm': 0, 'rackshift': 0, 'orphanidg': 0, 'stalemark': 0, 'renewearly': 0,
+    'orphanbl': 0, 'orphanrm': 0, 'rackshift': 0, 'capsqueeze': 0, 'orphanidg': 0, 'stalemark': 0, 'renewearly': 0,
     'clone2': 0, 'freezedown': 0, 'fdown': 0, 'fill': 0, 'fillclone2': 0, 'freezepress': 0, 'notupmove': 0, 'freezework': 0, 'renewold': 0, 'freeze': 1, 'unfreeze': 1, 'bl': 1,
     'renew': 1, 'reslot': 1, 'idg': 1, 'rmidg': 1, 'strat': 1, 'adv': 2, 'adv_ret': 1,
     'tick': 1, 'cycle': 8,
